@@ -214,10 +214,10 @@ def fresh(src, style):
 def gen(tier, rng, boost=1):
     quick = tier == "quick"
     pool = [(s if s.startswith("@use") or "math." not in s else s, "-") for s in ATTACKS]
-    progs = [model_program(rng) for _ in range((60 if quick else 600) * boost)]
-    spec = [(s, "-") for s in spec_inputs(rng, (150 if quick else 2500) * boost)]
+    progs = [model_program(rng) for _ in range((60 if quick else 300) * boost)]
+    spec = [(s, "-") for s in spec_inputs(rng, (150 if quick else 1000) * boost)]
     # modelled histories: every source has a term
-    for _ in range((20 if quick else 150) * boost):
+    for _ in range((20 if quick else 60) * boost):
         n = rng.randint(1, 50)
         hs = [rng.choice(progs) for _ in range(n)]
         mode, th = rng.choice([("seq", 1), ("par", 16), ("par", rng.randint(2, 8))])
@@ -229,7 +229,7 @@ def gen(tier, rng, boost=1):
         yield Case(hline("seq", 1, style, "-", [s for s, _ in pool]), "attacks-seq")
         yield Case(hline("seq", 1, style, "-", [s for s, _ in pool + pool[::-1]]), "attacks-seq")
         yield Case(hline("par", 16, style, "-", [s for s, _ in pool]), "attacks-par16")
-    for _ in range((25 if quick else 250) * boost):
+    for _ in range((25 if quick else 120) * boost):
         n = rng.randint(1, 50)
         hs = [rng.choice(allp if rng.random() < 0.7 else pool) for _ in range(n)]
         if rng.random() < 0.3 and n > 2:      # A, B, A patterns
@@ -292,8 +292,11 @@ EXPECTED_INTERIOR = sorted([
     ("variablescope.rs", "content: ArcSwapOption<MixinDecl>"),
 ])
 # methods of `Scope` that write one of those fields (each is accounted for in Glue/Globals.lean's header)
-EXPECTED_WRITERS = sorted(["define_module", "set_variable", "define_global", "restore_local_values", "define_mixin",
+EXPECTED_WRITERS = sorted(["define_module", "assign", "define", "define_global", "restore_local_values", "define_mixin",
                            "define_function", "forward", "define_content"])
+# (since /repo 2e77b95/90cea8e `set_variable` no longer writes itself: it refuses built-in modules in its
+#  module-path branch — unchanged — and then delegates to `assign` (walks the parent chain of USER scopes; a
+#  built-in module scope is never the parent of another scope) or `define_global`; `define` inserts directly.)
 EXPECTED_DEP_WARN_SITES = 4
 
 _STATIC = re.compile(r"^\s*(?:pub(?:\([^)]*\))?\s+)?static\s+(?:mut\s+)?([A-Za-z_][A-Za-z_0-9]*)\s*:\s*(.+?)\s*=", re.M | re.S)
